@@ -16,6 +16,19 @@ For every class the `ast` of its body is walked (no execution):
 
 Attributes that are only ever assigned None anywhere in the class are dead and dropped.
 Unsupported shapes raise ExtractError.
+
+Round 3:
+* sub-object paths: when some method of the class assigns an attribute of an object held in `self._x`
+  (`self._header._unit = u`, `self.header._analysis_period = p` through the alias getter `header`, or
+  through a local name bound to such an object), `_x` is *split*: reads and writes of `self._x.y...` are
+  recorded as the pseudo attribute `_x.y` (leading underscore of `y` dropped), a method call on the
+  sub-object or handing it to other code reads `_x.*` (every path), assigning `self._x` writes every path.
+  So an in-place operation that swaps the header's analysis period is seen to invalidate what was derived
+  from it, while a unit change is not.
+* per setter / public mutating method `early`: the attributes it has already assigned (a value, not a
+  clearing None) when a later statement of it can still refuse the call (assert / raise / float() / int()
+  conversions / a helper method that asserts).  A refused call then leaves the object changed.
+* `setattr(self, ..)`, `self.__dict__`, `vars(self)` are not understood: ExtractError.
 """
 import ast
 import hashlib
@@ -125,12 +138,112 @@ class ClassInfo(object):
         if '__init__' not in self.methods:
             raise ExtractError('%s.%s: no __init__' % (rel, cname))
         self._memo = {}
+        self._callfuncs = set()
+        # alias getters: `return self._x` only
+        self.alias = {}
+        for gname, f in self.getters.items():
+            b = [st for st in f.body if not (isinstance(st, ast.Expr) and isinstance(st.value, ast.Constant))]
+            if len(b) == 1 and isinstance(b[0], ast.Return) and _is_self_attr(b[0].value) \
+                    and b[0].value.attr.startswith('_'):
+                self.alias[gname] = b[0].value.attr
+        for f in body:
+            if isinstance(f, ast.FunctionDef):
+                for n in ast.walk(f):
+                    if isinstance(n, ast.Call) and isinstance(n.func, ast.Name) and n.func.id in ('setattr', 'vars') \
+                            and n.args and isinstance(n.args[0], ast.Name) and n.args[0].id == 'self':
+                        raise ExtractError('%s.%s.%s: %s(self, ...) at line %d is not understood'
+                                           % (rel, cname, f.name, n.func.id, n.lineno))
+                    if _is_self_attr(n) and n.attr == '__dict__':
+                        raise ExtractError('%s.%s.%s: self.__dict__ at line %d is not understood'
+                                           % (rel, cname, f.name, n.lineno))
+        # roots that are split into sub-object paths: some method assigns through them
+        self.split = set()
+        self.subpaths = {}
+        self._locals = {}
+        for f in body:
+            if isinstance(f, ast.FunctionDef):
+                amap = self._alias_map(f)
+                for n in ast.walk(f):
+                    tg = []
+                    if isinstance(n, ast.Assign):
+                        tg = n.targets
+                    elif isinstance(n, ast.AugAssign):
+                        tg = [n.target]
+                    for t in tg:
+                        for t1 in (t.elts if isinstance(t, (ast.Tuple, ast.List)) else [t]):
+                            if isinstance(t1, ast.Attribute) and not _is_self_attr(t1):
+                                r = self._chain(t1, amap)
+                                if r and r[1]:
+                                    self.split.add(r[0])
+
+    def _self_root(self, n):
+        """`self._x` or `self.<alias getter>` -> '_x', else None"""
+        if _is_self_attr(n):
+            if n.attr in getattr(self, 'alias', {}):
+                return self.alias[n.attr]
+            if n.attr.startswith('_') and not n.attr.startswith('__') and n.attr not in self.getters \
+                    and n.attr not in self.funcnames:
+                return n.attr
+        return None
+
+    def _alias_map(self, f):
+        """local names bound (anywhere in the function) to a sub-object reached from self: name -> (root, sub)"""
+        amap = {}
+        for _ in range(2):
+            for n in ast.walk(f):
+                if isinstance(n, ast.Assign) and len(n.targets) == 1 and isinstance(n.targets[0], ast.Name) \
+                        and isinstance(n.value, (ast.Attribute, ast.Name)):
+                    if isinstance(n.value, ast.Name):
+                        if n.value.id in amap:
+                            amap[n.targets[0].id] = amap[n.value.id]
+                        continue
+                    root = self._self_root(n.value)
+                    if root:
+                        amap[n.targets[0].id] = (root, None)
+                    else:
+                        r = self._chain(n.value, amap)
+                        if r:
+                            amap[n.targets[0].id] = r
+        return amap
+
+    def _chain(self, n, amap):
+        """an attribute chain `<root>.a.b` with root = self._x / self.<alias> / an aliased local name ->
+        (root attribute, first sub-attribute without leading underscores) ; else None"""
+        chain = []
+        while isinstance(n, (ast.Attribute, ast.Subscript)):
+            if isinstance(n, ast.Attribute):
+                root = self._self_root(n)
+                if root:
+                    chain.reverse()
+                    return (root, chain[0].lstrip('_') if chain else None)
+                chain.append(n.attr)
+            n = n.value
+        if isinstance(n, ast.Name) and n.id in amap:
+            chain.reverse()
+            root, sub = amap[n.id]
+            if sub is None:
+                sub = chain[0].lstrip('_') if chain else None
+            return (root, sub)
+        return None
+
+    def _path(self, root, sub):
+        p = '%s.%s' % (root, sub if sub else '*')
+        self.subpaths.setdefault(root, set()).add(p)
+        return p
 
     # -- effects of a list of statements -----------------------------------------------------
-    def effects(self, nodes, stack=()):
+    def effects(self, nodes, stack=(), fn=None):
         e = Eff()
-        for n in nodes:
-            self._visit(n, e, stack)
+        saved = getattr(self, '_amap', {})
+        if fn is not None:
+            self._amap = self._alias_map(fn)
+        elif not hasattr(self, '_amap'):
+            self._amap = {}
+        try:
+            for n in nodes:
+                self._visit(n, e, stack)
+        finally:
+            self._amap = saved
         return e
 
     def _method_eff(self, name, stack):
@@ -139,7 +252,8 @@ class ClassInfo(object):
             return Eff()
         if key not in self._memo:
             body = self.methods[name].body
-            ef = self.effects(body, stack + (key,))
+            self._cur_amap = None
+            ef = self.effects(body, stack + (key,), fn=self.methods[name])
             ef.code.append('%s:%s' % (name, ast.dump(ast.Module(body=body, type_ignores=[]))))
             self._memo[key] = ef
         return self._memo[key]
@@ -188,6 +302,33 @@ class ClassInfo(object):
         return self._memo[key]
 
     def _visit(self, n, e, stack):
+        if isinstance(n, ast.Call) and isinstance(n.func, ast.Attribute):
+            self._callfuncs.add(id(n.func))
+        if isinstance(n, ast.Attribute) and not _is_self_attr(n) and isinstance(n.ctx, ast.Load) \
+                and id(n) not in self._callfuncs:
+            r = self._chain(n, self._amap)
+            if r and r[0] in self.split and r[1]:
+                # a read of the sub-object path (a method of the sub-object may look at all of it)
+                p = self._path(r[0], r[1])
+                e.reads.add(p)
+                e.direct.add(p)
+        if isinstance(n, ast.Call) and isinstance(n.func, ast.Attribute) and not _is_self_attr(n.func):
+            root = self._self_root(n.func.value) or (self._amap.get(n.func.value.id, (None, 1))[0]
+                                                     if isinstance(n.func.value, ast.Name)
+                                                     and self._amap.get(n.func.value.id, (None, 1))[1] is None
+                                                     else None)
+            if root in self.split:          # self._x.method(): may look at every path
+                p = self._path(root, None)
+                e.reads.add(p)
+                e.direct.add(p)
+        if isinstance(n, ast.Call):
+            for a in list(n.args) + [k.value for k in n.keywords]:
+                root = self._self_root(a) or (self._amap[a.id][0] if isinstance(a, ast.Name) and a.id in self._amap
+                                              and self._amap[a.id][1] is None else None)
+                if root in self.split:      # the sub-object is handed to other code
+                    p = self._path(root, None)
+                    e.reads.add(p)
+                    e.direct.add(p)
         if _is_self_attr(n):
             a = n.attr
             if isinstance(n.ctx, ast.Load):
@@ -241,6 +382,13 @@ class ClassInfo(object):
             elif t.attr.startswith('_'):
                 e.write(t.attr, kind)
             return
+        if isinstance(t, ast.Attribute):
+            r = self._chain(t, self._amap)
+            if r and r[0] in self.split and r[1]:
+                e.write(self._path(r[0], r[1]), 'val')
+                e.reads.add(r[0])
+                e.direct.add(r[0])
+                return
         if isinstance(t, (ast.Subscript, ast.Attribute)):
             # self._x[i] = v / self._x.y = v : a write to (and read of) self._x
             base = t.value
@@ -263,8 +411,61 @@ class ClassInfo(object):
         if key in stack:
             return Eff()
         if key not in self._memo:
-            self._memo[key] = self.effects(self.setters[name].body, stack + (key,))
+            self._memo[key] = self.effects(self.setters[name].body, stack + (key,), fn=self.setters[name])
         return self._memo[key]
+
+    # -- refused calls: what is already assigned when a later statement can still refuse --------------
+    def _may_refuse(self, st, seen=()):
+        for n in ast.walk(st):
+            if isinstance(n, (ast.Assert, ast.Raise)):
+                return True
+            if isinstance(n, ast.Call):
+                if isinstance(n.func, ast.Name) and n.func.id in ('float', 'int'):
+                    return True
+                if _is_self_attr(n.func) and n.func.attr in self.methods and n.func.attr not in seen:
+                    if any(self._may_refuse(b, seen + (n.func.attr,)) for b in self.methods[n.func.attr].body):
+                        return True
+            if _is_self_attr(n) and isinstance(n.ctx, ast.Store) and n.attr in self.setters \
+                    and n.attr not in seen:
+                if any(self._may_refuse(b, seen + (n.attr,)) for b in self.setters[n.attr].body):
+                    return True
+        return False
+
+    def early_writes(self, fn):
+        """attributes that hold a newly assigned value when a LATER simple statement of `fn` may refuse"""
+        written, early = set(), set()
+        saved = getattr(self, '_amap', {})
+        self._amap = self._alias_map(fn)
+
+        def simple(st):
+            # the value of an assignment is evaluated before the store: its own conversion is not 'later'
+            if self._may_refuse(st) and not isinstance(st, (ast.Assign, ast.AugAssign)):
+                early.update(written)
+            elif isinstance(st, (ast.Assign, ast.AugAssign)) and self._may_refuse(st):
+                early.update(written)
+            ef = self.effects([st], (('early', fn.name),))
+            written.update(a for a, k in ef.writes.items() if 'val' in k)
+
+        def walk(stmts):
+            for st in stmts:
+                if isinstance(st, (ast.If, ast.For, ast.While, ast.With)):
+                    if self._may_refuse(getattr(st, 'test', None) or getattr(st, 'iter', None) or ast.Pass()):
+                        early.update(written)
+                    walk(st.body)
+                    walk(getattr(st, 'orelse', []))
+                elif isinstance(st, ast.Try):
+                    walk(st.body)
+                    for h in st.handlers:
+                        walk(h.body)
+                    walk(st.orelse)
+                    walk(st.finalbody)
+                else:
+                    simple(st)
+        try:
+            walk(fn.body)
+        finally:
+            self._amap = saved
+        return early
 
     # -- the table ------------------------------------------------------------------------------
     def table(self):
@@ -316,7 +517,7 @@ class ClassInfo(object):
             note(ef.writes)
             setters[name] = {'writes': sorted(a for a, k in ef.writes.items() if 'val' in k),
                              'clears': sorted(a for a, k in ef.writes.items() if k == {'none'}),
-                             'reads': sorted(ef.reads)}
+                             'reads': sorted(ef.reads), 'early': sorted(self.early_writes(self.setters[name]))}
         slots0 = set()
         for g in getters.values():
             for st in g['sites']:
@@ -331,7 +532,8 @@ class ClassInfo(object):
                 note(ef.writes)
                 setters[name + '()'] = {'writes': sorted(a for a, k in ef.writes.items() if 'val' in k),
                                         'clears': sorted(a for a, k in ef.writes.items() if k == {'none'}),
-                                        'reads': sorted(ef.reads)}
+                                        'reads': sorted(ef.reads),
+                                        'early': sorted(self.early_writes(self.methods[name]))}
         dead = set(a for a, k in all_writes.items() if k == {'none'})
         # temporaries: an attribute that only unguarded blocks assign and that every getter loading it
         # assigns itself (unguarded) first is recomputed before each use - it is not a cache
@@ -367,6 +569,43 @@ class ClassInfo(object):
                         cur |= set(t['reads'])
                         changed = True
                 s['reads'] = sorted(cur)
+        # sub-object paths: `_x.*` stands for every path of `_x`; assigning `_x` assigns every path
+        subs = {r: sorted(p for p in ps if not p.endswith('.*')) for r, ps in self.subpaths.items()}
+
+        def xr(lst):
+            out = set()
+            for a in lst:
+                if a.endswith('.*'):
+                    out.update(subs.get(a[:-2], []))
+                    out.add(a[:-2])
+                else:
+                    out.add(a)
+            return sorted(out)
+
+        def xw(lst):
+            out = set(xr(lst))
+            for a in list(out):
+                out.update(subs.get(a, []))
+            return sorted(out)
+        for g in getters.values():
+            for st in g['sites']:
+                st['reads'] = xr(st['reads'])
+            g['reads'] = xr(g['reads'])
+            g['direct'] = xr(g['direct'])
+        for st in setters.values():
+            st['reads'] = xr(st['reads'])
+            st['writes'] = xw(st['writes'])
+            st['early'] = xw(st['early'])
+        init_w = {}
+        for a, k in init.writes.items():
+            for b in xw([a]):
+                init_w.setdefault(b, set()).update(k)
+        init.writes = init_w
+        aw = {}
+        for a, k in all_writes.items():
+            for b in xw([a]):
+                aw.setdefault(b, set()).update(k)
+        all_writes = aw
         attrs = set(init.writes) | set(all_writes)
         for g in getters.values():
             attrs |= set(g['reads'])
@@ -394,7 +633,7 @@ class ClassInfo(object):
                 rf += [(a, e) for a in clean(r['slots'])]
             g['refines'] = rf
         for s in setters.values():
-            for k in ('writes', 'clears', 'reads'):
+            for k in ('writes', 'clears', 'reads', 'early'):
                 s[k] = clean(s[k])
         return {'class': self.cname, 'file': self.rel, 'attrs': attrs,
                 'init': clean(sorted(init.writes)), 'shared': sorted(self.class_attrs - dead),
@@ -452,8 +691,8 @@ def to_lean(tabs):
             gl.append('    { name := %s, sites := [%s],\n      direct := %s, clears := %s, refines := %s }'
                       % (lean_str(gname), ',\n        '.join(sl), _ids(t, g['direct']), _ids(t, g['clears']), rf))
         out.append('  getters := [\n%s]' % ',\n'.join(gl))
-        sl = ['    { name := %s, writes := %s, clears := %s }'
-              % (lean_str(sname), _ids(t, s['writes']), _ids(t, s['clears']))
+        sl = ['    { name := %s, writes := %s, clears := %s, early := %s }'
+              % (lean_str(sname), _ids(t, s['writes']), _ids(t, s['clears']), _ids(t, s['early']))
               for sname, s in sorted(t['setters'].items())]
         out.append('  setters := [\n%s]' % ',\n'.join(sl))
         out.append('')
